@@ -526,6 +526,7 @@ func ParentMain(p *Prop, tier, verifDir, outDir string) int {
 		cov["exhaustive_small_scope"] = ex
 		cov["exhaustive_small_scope_note"] = "for each listed tree, configuration and key universe of k keys, EVERY state reachable from the empty tree by Put/Remove (states identified by a deep reflection fingerprint incl. unexported colour/balance fields) was visited and every one of the 2k calls was made from it under the monitors (':closed' = the exploration reached its fixed point); the rest of the run is sampled, so the top-level 'exhaustive' flag is not set"
 	}
+	cov["workload_mechanisms_shared_by_the_checks"] = "beyond what 'rule' lists: observation gaps (in about half of the lockstep cases the observers run only after every 1st-5th, in some families up to 40th, mutating call; see obs:skipped-by-observation-gap), observers in no fixed order, reads drawn as part of the history at or next to the previous index/key, deep-copied snapshots, returned slices overwritten by the monitor after use, passed slices overwritten after the call, un-normalised comparators with magnitudes up to 2^62, struct/float/pointer element types where the property allows, large sizes (thousands of elements, peak-then-drain, 2^16 repetitions) and huge cases (10^5-10^6 elements) at fixed case indices; cases are dealt to the worker processes by a hash of their index; see DESIGN.md section 9"
 	cov["worker_processes"] = w
 	cov["slowest_case_ms"] = slowestMs
 	cov["slowest_case_index"] = slowestIdx
